@@ -91,7 +91,19 @@ func (c *Ctx) lockOp(fr *Frame, full string, recv ssa.Value, st *State, reach st
 	}
 	gname := shortPkg(g.Pkg.Pkg.Path()) + "." + g.Name()
 	if c.lockGlobal == "" {
-		c.lockGlobal = gname
+		// the lock of the ghost is the one the guarded_by declaration names; holding some other mutex does not
+		// count as holding it (a seeded change that read a guarded table under a second, new mutex was missed
+		// when the first mutex a function touched was taken to be "the" lock)
+		declared := ""
+		for _, gv := range sortedKeys(c.sp.GuardedBy) {
+			declared = c.sp.GuardedBy[gv]
+			break
+		}
+		if declared != "" {
+			c.lockGlobal = declared
+		} else {
+			c.lockGlobal = gname
+		}
 	}
 	if gname != c.lockGlobal {
 		return
